@@ -219,6 +219,7 @@ Section ValueInd.
   Hypothesis HDict : forall l, Forall (fun kv => P (snd kv)) l -> P (VDict l).
   Hypothesis HObj : forall m c l, Forall (fun kv => P (snd kv)) l -> P (VObj m c l).
   Hypothesis HOther : forall tys h, P (VOther tys h).
+  Hypothesis HTb : forall d q f s, P (VTbWriter d q f s).
 
   Fixpoint value_ind' (v : value) : P v :=
     match v with
@@ -250,6 +251,7 @@ Section ValueInd.
                                  | (k, x) :: r => Forall_cons (k, x) (value_ind' x : P (snd (k, x))) (go r)
                                  end) l)
     | VOther tys h => HOther tys h
+    | VTbWriter d q f s => HTb d q f s
     end.
 End ValueInd.
 
